@@ -282,6 +282,18 @@ where
                     call: ci,
                 });
             }
+            if let Some(eo) = &scn.edge_oracle {
+                for i in 0..path.len() - 1 {
+                    if let Some(why) = eo(v, &path[i], &path[i + 1]) {
+                        f.push(Finding {
+                            property: "C03",
+                            class: "segment_through_invalid_state".into(),
+                            what: format!("segment {i}: {why}"),
+                            call: ci,
+                        });
+                    }
+                }
+            }
             if scn.real_metric {
                 let acc = chk.accepted.borrow();
                 for i in 0..path.len() - 1 {
@@ -351,6 +363,20 @@ where
                             what: format!("{which}: node {i} is rejected by the validity checker"),
                             call: ci,
                         });
+                    }
+                }
+                if let Some(eo) = &scn.edge_oracle {
+                    for (i, n) in t.iter().enumerate() {
+                        if let Some(pi) = n.1 {
+                            if let Some(why) = eo(v, &states[pi], &states[i]) {
+                                f.push(Finding {
+                                    property: "C15",
+                                    class: "tree_edge_through_invalid_state".into(),
+                                    what: format!("{which}: {why}"),
+                                    call: ci,
+                                });
+                            }
+                        }
                     }
                 }
                 if scn.real_metric {
